@@ -130,6 +130,17 @@ CHECKS = {
              'FilterException+catch are compared for equal predicates. No schedule exists here: the fault plan is '
              'the whole search space.',
         note='Failing examples fail deterministically; duplicate keys under key iteration (loud refusal) not generated.'),
+    'C19': dict(
+        level='exploration', ref='4 (C19)',
+        technique='deterministic simulation (weak form): request histories with lifetime, GC and file events as '
+                  'the injected faults, reference dict model; no schedule exists in this layer',
+        text='Generated database descriptions (1-3 merged parts, aliases possibly only in a later part, extra '
+             'top-level keys, invalid duplicates) Dict- and Json-backed are driven by seeded request histories with '
+             'hold / drop / gc.collect, client mutation, pickle round trips and rewriting or removing the JSON files '
+             'after load; contents and order are compared with a reference dict model, the source dictionaries with '
+             'their snapshot, repeated requests by identity.',
+        note='Single task: the only nondeterminism is reference lifetime / GC instants and file events, which the '
+             'op list fixes; an added empty alias section is not counted as a change of the source.'),
 }
 
 NOT_APPLICABLE = {
